@@ -30,11 +30,14 @@ import (
 	"fmt"
 	"math"
 	"math/rand"
+	"os"
 	"sort"
 	"strconv"
 	"strings"
+	"sync"
 	"time"
 
+	"github.com/hydraide/hydraide/app/core/settings"
 	"github.com/hydraide/hydraide/app/name"
 	hydrapb "github.com/hydraide/hydraide/sdk/go/hydraidego/v3/hydraidepbgo"
 	"github.com/vmihailenco/msgpack/v5"
@@ -47,8 +50,9 @@ func init() { Register("C08", Domain{Gen: c08Gen, Run: c08Run}) }
 // ---- value trees (generator side) -------------------------------------------------------------
 
 type c08Val struct {
-	kind string // n T F i u f s t a m
+	kind string // n T F i u f s t a m   (f with s ∈ {NaN,+Inf,-Inf,-0}: a special float)
 	i    int64
+	u    uint64 // kind u
 	s    string
 	arr  []*c08Val
 	keys []string
@@ -59,7 +63,14 @@ func c08Render(v *c08Val) string {
 	switch v.kind {
 	case "n", "T", "F":
 		return v.kind
-	case "i", "u", "f", "t":
+	case "u":
+		return "u" + strconv.FormatUint(v.u, 10)
+	case "f":
+		if v.s != "" {
+			return "f" + v.s
+		}
+		return "f" + strconv.FormatInt(v.i, 10)
+	case "i", "t":
 		return v.kind + strconv.FormatInt(v.i, 10)
 	case "s":
 		return "'" + v.s + "'"
@@ -119,7 +130,7 @@ func c08Encode(b *bytes.Buffer, v *c08Val, rng *rand.Rand) {
 			_ = binary.Write(b, binary.BigEndian, n)
 		}
 	case "u": // unsigned family: uint8 / uint16 / uint32 / uint64
-		n := uint64(v.i)
+		n := v.u
 		opts := []int{64}
 		if n <= math.MaxUint32 {
 			opts = append(opts, 32)
@@ -145,7 +156,17 @@ func c08Encode(b *bytes.Buffer, v *c08Val, rng *rand.Rand) {
 		}
 	case "f": // quarters: exactly representable as float32 and float64
 		x := float64(v.i) / 4
-		if rng.Intn(2) == 0 {
+		switch v.s {
+		case "NaN":
+			x = math.NaN()
+		case "+Inf":
+			x = math.Inf(1)
+		case "-Inf":
+			x = math.Inf(-1)
+		case "-0":
+			x = math.Copysign(0, -1)
+		}
+		if rng.Intn(2) == 0 && (v.s != "" || float64(float32(x)) == x) && v.s != "NaN" {
 			b.WriteByte(0xca)
 			_ = binary.Write(b, binary.BigEndian, math.Float32bits(float32(x)))
 		} else {
@@ -205,9 +226,9 @@ func c08RenderDecoded(v any) string {
 	case uint64:
 		return "u" + strconv.FormatUint(x, 10)
 	case float32:
-		return "f" + strconv.FormatFloat(float64(x)*4, 'f', -1, 64)
+		return c08FloatText(float64(x))
 	case float64:
-		return "f" + strconv.FormatFloat(x*4, 'f', -1, 64)
+		return c08FloatText(x)
 	case string:
 		return "'" + x + "'"
 	case time.Time:
@@ -233,11 +254,36 @@ func c08RenderDecoded(v any) string {
 	return fmt.Sprintf("?%T", v)
 }
 
+// quarters as exact integer text (FormatFloat's shortest form rounds 2^55 to 16 digits)
+func c08FloatText(x float64) string {
+	q := x * 4
+	if q == math.Trunc(q) && math.Abs(q) < 1<<62 && !(q == 0 && math.Signbit(q)) {
+		return "f" + strconv.FormatInt(int64(q), 10)
+	}
+	return "f" + strconv.FormatFloat(q, 'f', -1, 64)
+}
+
 // ---- generator -------------------------------------------------------------------------------------
 
 var c08Strs = []string{"a", "b", "ab", "", "x1"}
 
+var c08BigInts = []int64{math.MaxInt64, math.MinInt64, 1 << 53, 1<<53 + 1, 1<<53 - 1, -1}
+var c08BigUints = []uint64{math.MaxUint64, 1 << 63, 1<<53 + 1, 1 << 53}
+
 func c08Scalar(rng *rand.Rand) *c08Val {
+	if rng.Intn(9) == 0 { // boundary scalars
+		switch rng.Intn(3) {
+		case 0:
+			return &c08Val{kind: "i", i: c08BigInts[rng.Intn(len(c08BigInts))]}
+		case 1:
+			return &c08Val{kind: "u", u: c08BigUints[rng.Intn(len(c08BigUints))]}
+		default:
+			if rng.Intn(2) == 0 {
+				return &c08Val{kind: "f", i: 1 << 55} // 2^53 as a float
+			}
+			return &c08Val{kind: "f", s: []string{"NaN", "+Inf", "-Inf", "-0"}[rng.Intn(4)]}
+		}
+	}
 	switch rng.Intn(16) {
 	case 0:
 		return &c08Val{kind: "n"}
@@ -248,7 +294,7 @@ func c08Scalar(rng *rand.Rand) *c08Val {
 	case 3, 4, 5, 6:
 		return &c08Val{kind: "i", i: int64(rng.Intn(9)) - 2}
 	case 7, 8:
-		return &c08Val{kind: "u", i: int64(rng.Intn(7))}
+		return &c08Val{kind: "u", u: uint64(rng.Intn(7))}
 	case 9, 10, 11:
 		// quarters 0..27: 0, 0.25 … 6.75  (5.75 ↔ "float 5.7 vs int 5")
 		return &c08Val{kind: "f", i: int64(rng.Intn(28))}
@@ -391,20 +437,49 @@ func c08CVFor(rng *rand.Rand, v *c08Val, op string) string {
 	case "i32in", "i64in":
 		n := int64(rng.Intn(6))
 		switch v.kind {
-		case "i", "u", "t":
+		case "i", "t":
 			n = v.i
+		case "u":
+			n = int64(v.u)
 		case "f":
 			n = v.i / 4
+		}
+		if op == "i32in" && (n > math.MaxInt32 || n < math.MinInt32) {
+			n = int64(int32(n))
 		}
 		alt := strconv.Itoa(rng.Intn(7))
 		return op[:3] + ":" + []string{strconv.FormatInt(n, 10) + ";" + alt, alt + ";" + strconv.FormatInt(n, 10), strconv.FormatInt(n, 10) + ";" + strconv.FormatInt(n, 10)}[rng.Intn(3)]
 	case "empty", "nempty":
 		return "-"
 	}
+	big := func(n int64) bool { return n > 1<<31 || n < -(1<<31) }
 	switch v.kind {
-	case "i", "u", "t":
+	case "u":
+		if v.u > 1<<31 {
+			// the same magnitude as u64, as (wrapping) i64, or as the float it rounds to
+			return []string{"u64:" + strconv.FormatUint(v.u, 10), "i64:" + strconv.FormatInt(int64(v.u), 10),
+				"f64:" + strconv.FormatFloat(float64(v.u)*4, 'f', 0, 64)}[rng.Intn(3)]
+		}
+		return num(int64(v.u), false)
+	case "i", "t":
+		if big(v.i) {
+			opts := []string{"i64:" + strconv.FormatInt(v.i, 10), "f64:" + strconv.FormatFloat(float64(v.i)*4, 'f', 0, 64)}
+			if v.i >= 0 {
+				opts = append(opts, "u64:"+strconv.FormatInt(v.i, 10))
+			} else {
+				opts = append(opts, "u64:18446744073709551615")
+			}
+			return opts[rng.Intn(len(opts))]
+		}
 		return num(v.i, false)
 	case "f":
+		if v.s != "" {
+			return []string{"i64:0", "f64:0", "i64:-9223372036854775808", "u64:9223372036854775808", "f64:4"}[rng.Intn(5)]
+		}
+		if big(v.i) {
+			return []string{"f64:" + strconv.FormatInt(v.i, 10), "i64:" + strconv.FormatInt(v.i/4, 10),
+				"i64:" + strconv.FormatInt(v.i/4+1, 10), "u64:" + strconv.FormatInt(v.i/4, 10)}[rng.Intn(4)]
+		}
 		return num(v.i, true)
 	case "s":
 		return "s:" + v.s
@@ -575,10 +650,17 @@ func c08Gen(rng *rand.Rand, tier string, w *bufio.Writer) {
 	fmt.Fprintln(w, "q created asc 0 0 - - 0 &(a~eq~i64:1~)")
 	// corpus 4b: a time window on a key-ordered query (the scan route ignores it, applyTimeRange does not)
 	fmt.Fprintln(w, "q key asc 0 0 1 - 0 &(a~eq~i64:1~)")
+	// corpus 4c: the time index the scan route walks was built, then an update moved CreatedAt; the
+	// accelerated route sorts afresh (the two agree because SaveFunction re-files the record: C07)
+	fmt.Fprintln(w, "q created asc 0 0 - - 0 &(a~eq~i64:1~)")
+	fixed("k2", 9, 0, 0, "{a:i1}", mk("a", I(1)))
+	fixed("k1", 3, 0, 0, "{a:i1}", mk("a", I(1)))
+	fmt.Fprintln(w, "q created asc 0 0 - - 0 &(a~eq~i64:1~)")
+	fmt.Fprintln(w, "q created desc 0 0 - - 0 |(a~eq~i64:1~,&(a~nempty~-~))")
 	// corpus 5: agreement on the sound fragment + mutation after the bucket was built
 	fmt.Fprintln(w, "case 5")
 	fixed("k1", 1, 0, 0, "{a:i1,b:'a'}", mk("a", I(1), "b", S("a")))
-	fixed("k2", 2, 0, 0, "{a:u1,b:'b'}", mk("a", &c08Val{kind: "u", i: 1}, "b", S("b")))
+	fixed("k2", 2, 0, 0, "{a:u1,b:'b'}", mk("a", &c08Val{kind: "u", u: 1}, "b", S("b")))
 	fixed("k3", 3, 0, 0, "{a:f4,b:'a'}", mk("a", Fq(4), "b", S("a")))
 	fmt.Fprintln(w, "q key desc 0 0 - - 0 &(a~eq~i64:1~,b~ne~s:b~)")
 	fixed("k2", 0, 0, 0, "{a:i2,b:'a'}", mk("a", I(2), "b", S("a")))
@@ -588,7 +670,12 @@ func c08Gen(rng *rand.Rand, tier string, w *bufio.Writer) {
 	fmt.Fprintln(w, "q created desc 0 0 2 9 2 |(a~eq~f64:4~,b~sin~s:a;b~)")
 
 	for c := 6; c < cases; c++ {
-		fmt.Fprintf(w, "case %d\n", c)
+		persistent := c%3 == 0
+		if persistent {
+			fmt.Fprintf(w, "case %dp\n", c)
+		} else {
+			fmt.Fprintf(w, "case %d\n", c)
+		}
 		theme := rng.Intn(10)
 		labelP, special, paging := 0, 0, false
 		switch {
@@ -621,8 +708,12 @@ func c08Gen(rng *rand.Rand, tier string, w *bufio.Writer) {
 			case r < 45 || len(seenKey) == 0:
 				k := rng.Intn(nKeys)
 				cT, uT, eT := ts(k)
-				if seenKey[k] {
-					cT, uT, eT = 0, 0, 0 // updates never move a time attribute (that is C07's subject)
+				if seenKey[k] && rng.Intn(3) != 0 {
+					cT, uT, eT = 0, 0, 0
+				} else if seenKey[k] {
+					// an update that moves the timestamps: the scan route then reads an index that was
+					// re-filed incrementally (C07), the accelerated route sorts its candidates afresh
+					cT, uT, eT = 1+rng.Intn(nKeys+2), 1+rng.Intn(nKeys+2), 1+rng.Intn(nKeys+2)
 				}
 				seenKey[k] = true
 				if rng.Intn(14) == 0 {
@@ -631,6 +722,8 @@ func c08Gen(rng *rand.Rand, tier string, w *bufio.Writer) {
 				} else {
 					bodies[k] = c08GenBody(rng, w, fmt.Sprintf("k%d", k), cT, uT, eT)
 				}
+			case r < 55 && r >= 52 && persistent:
+				fmt.Fprintln(w, "reload")
 			case r < 52:
 				k := rng.Intn(nKeys)
 				delete(seenKey, k)
@@ -786,6 +879,22 @@ func c08ParseLeaf(s string) (*hydrapb.TreasureFilter, bool) {
 		f.CompareValue = &hydrapb.TreasureFilter_BoolVal{BoolVal: v}
 		return f, true
 	}
+	if tv[0] == "u64" {
+		u, err := strconv.ParseUint(tv[1], 10, 64)
+		if err != nil {
+			return nil, false
+		}
+		f.CompareValue = &hydrapb.TreasureFilter_Uint64Val{Uint64Val: u}
+		return f, true
+	}
+	if tv[0] == "f64" {
+		q, err := strconv.ParseFloat(tv[1], 64)
+		if err != nil {
+			return nil, false
+		}
+		f.CompareValue = &hydrapb.TreasureFilter_Float64Val{Float64Val: q / 4}
+		return f, true
+	}
 	n, err := strconv.ParseInt(tv[1], 10, 64)
 	if err != nil {
 		return nil, false
@@ -839,6 +948,38 @@ func (s *c08Stream) Context() context.Context     { return s.ctx }
 func (s *c08Stream) SendMsg(any) error            { return nil }
 func (s *c08Stream) RecvMsg(any) error            { return nil }
 
+// c08NewPath records the field paths of a filter text and reports whether any of them is new
+func c08NewPath(seen map[string]bool, filter string) bool {
+	isNew := false
+	for _, tok := range strings.FieldsFunc(filter, func(r rune) bool { return r == '(' || r == ')' || r == ',' || r == '&' || r == '|' }) {
+		if i := strings.Index(tok, "~"); i > 0 {
+			if !seen[tok[:i]] {
+				seen[tok[:i]] = true
+				isNew = true
+			}
+		}
+	}
+	return isNew
+}
+
+// window bounds of domain C08 are whole seconds
+func c08OptTS(s string) (*timestamppb.Timestamp, bool) {
+	if s == "-" {
+		return nil, true
+	}
+	v, err := strconv.ParseInt(s, 10, 64)
+	if err != nil {
+		return nil, false
+	}
+	return &timestamppb.Timestamp{Seconds: v}, true
+}
+
+func c08Sorted(items string) string {
+	p := strings.Split(items, ",")
+	sort.Strings(p)
+	return strings.Join(p, ",")
+}
+
 func c08Run(in *bufio.Scanner, w *bufio.Writer) {
 	rig, err := NewRig(3, 2000, 3600, 0)
 	if err != nil {
@@ -846,8 +987,14 @@ func c08Run(in *bufio.Scanner, w *bufio.Writer) {
 	}
 	defer rig.Stop(true)
 	rig.Settings.RegisterPattern(name.New().Sanctuary("c08").Realm("*").Swamp("*"), true, 3600, nil)
+	rig.Settings.RegisterPattern(name.New().Sanctuary("c08p").Realm("*").Swamp("*"), false, 3600,
+		&settings.FileSystemSettings{WriteIntervalSec: 1, MaxFileSizeByte: 8192})
+	if null, err := os.OpenFile(os.DevNull, os.O_WRONLY, 0); err == nil {
+		os.Stdout = null // the storage layer prints diagnostics; `w` already holds the real stdout
+	}
 	ctx := context.Background()
 	swampName := ""
+	seenPaths := map[string]bool{}
 	tsOf := func(s string) *timestamppb.Timestamp {
 		v, _ := strconv.ParseInt(s, 10, 64)
 		if v == 0 {
@@ -875,8 +1022,26 @@ func c08Run(in *bufio.Scanner, w *bufio.Writer) {
 			}()
 			switch {
 			case f[0] == "case" && len(f) == 2:
-				swampName = name.New().Sanctuary("c08").Realm("routes").Swamp("case" + f[1]).Get()
+				if strings.HasSuffix(f[1], "p") {
+					swampName = name.New().Sanctuary("c08p").Realm("routes").Swamp("case" + f[1]).Get()
+				} else {
+					swampName = name.New().Sanctuary("c08").Realm("routes").Swamp("case" + f[1]).Get()
+				}
+				seenPaths = map[string]bool{}
 				return line
+			case f[0] == "reload" && len(f) == 1:
+				// close and summon again: buckets and ordered indexes are derived state and are rebuilt
+				nm := name.Load(swampName)
+				if ok, err := rig.Zeus.GetHydra().IsExistSwamp(1, nm); err != nil || !ok {
+					return "ok"
+				}
+				sw, err := rig.Zeus.GetHydra().SummonSwamp(ctx, 1, nm)
+				if err != nil {
+					return "err"
+				}
+				sw.Close()
+				seenPaths = map[string]bool{}
+				return "ok"
 			case f[0] == "body" && len(f) == 7:
 				raw, err := hex.DecodeString(f[5])
 				if err != nil {
@@ -903,8 +1068,8 @@ func c08Run(in *bufio.Scanner, w *bufio.Writer) {
 				it, ok := c07IndexType(f[1])
 				from, e1 := strconv.ParseInt(f[3], 10, 32)
 				limit, e2 := strconv.ParseInt(f[4], 10, 32)
-				ft, ok1 := c07OptTS(f[5])
-				tt, ok2 := c07OptTS(f[6])
+				ft, ok1 := c08OptTS(f[5])
+				tt, ok2 := c08OptTS(f[6])
 				max, e3 := strconv.ParseInt(f[7], 10, 32)
 				if !ok || e1 != nil || e2 != nil || e3 != nil || !ok1 || !ok2 || (f[2] != "asc" && f[2] != "desc") {
 					return "bad-op"
@@ -930,6 +1095,40 @@ func c08Run(in *bufio.Scanner, w *bufio.Writer) {
 						return "err:" + c07ErrClass(err)
 					}
 					return strings.Join(st.out, ",")
+				}
+				// First use of a field path in this case: the bucket does not exist yet. Fire the same
+				// query from several goroutines at once — every one of them must see what a lone
+				// caller sees (GetOrBuildBucket's concurrent-first-caller contract).
+				concDiff := ""
+				if g != nil && c08NewPath(seenPaths, f[8]) && from == 0 && limit == 0 {
+					// build the ordered index first, alone: buildBeacon itself is not safe for concurrent
+					// first readers (a second reader sees `initialized` before the slice is filled), which
+					// is not this property's subject
+					_ = runQ(&hydrapb.FilterGroup{Logic: hydrapb.FilterLogic_OR, SubGroups: []*hydrapb.FilterGroup{g}})
+					const n = 12
+					res := make([]string, n)
+					start := make(chan struct{})
+					var wg sync.WaitGroup
+					for i := 0; i < n; i++ {
+						wg.Add(1)
+						go func(i int) {
+							defer wg.Done()
+							<-start
+							res[i] = c08Sorted(runQ(g))
+						}(i)
+					}
+					close(start)
+					wg.Wait()
+					seq := c08Sorted(runQ(g))
+					for _, r := range res {
+						if r != seq {
+							concDiff = "conc-diff concurrent=[" + r + "] alone=[" + seq + "]"
+							break
+						}
+					}
+				}
+				if concDiff != "" {
+					return concDiff
 				}
 				b := runQ(g)
 				// the same filter as the only sub-group of an OR group: planOr bypasses on sub-groups
